@@ -105,6 +105,23 @@ func isoTrees(e *Env, r *rand.Rand, parent string, hostileNames bool) []isoCase 
 	// portable names the random generator avoids: leading dot or dash, trailing dot, only dots and dashes
 	mk("dot-names", false, map[string]int64{".hidden": 3, "..a": 4, "...": 5, "-dash": 6, "a.": 7, ".dir/x": 8, "trailing./y": 1, "a.b.c.d": 2, "-": 9, "_": 10, ".d2/.f": 11, "--/--": 12})
 	mk("dot-names-ps3", true, map[string]int64{".hidden": 3, "PS3_GAME/.x": 4, "PS3_GAME/USRDIR/..a": 5})
+	// long portable names: every length around the 64 characters that Joliet tools traditionally allow, up
+	// to the longest name an image is made for; siblings that agree in their first 64 / 100 characters
+	{
+		long := func(n int, tail string) string {
+			b := strings.Repeat("LongPortableName_0123456789-abcdefghijklmnopqrstuvwxyz.ABCDEFGHIJ", 3)[:n-len(tail)]
+			return b + tail
+		}
+		files := map[string]int64{}
+		for i, n := range []int{63, 64, 65, 66, 80, 100, 109, 110} {
+			files[long(n, fmt.Sprintf(".f%d", i))] = int64(100 + i)
+			files[long(n, fmt.Sprintf(".g%d", i))] = int64(3000 + i)
+			files[long(n, fmt.Sprintf("_d%d", i))+"/"+long(n, ".in")] = int64(50 + i)
+			files[long(n, fmt.Sprintf("_d%d", i))+"/"+long(65, "_sub")+"/x"] = int64(7 + i)
+		}
+		mk("long-names", false, files)
+		mk("long-names-ps3", true, map[string]int64{long(65, ".a"): 1, long(65, ".b"): 2, "PS3_GAME/" + long(110, ".c"): 3, "PS3_GAME/" + long(110, ".d"): 2049})
+	}
 	mk("file-dir-case-ps3", true, map[string]int64{"usrdir": 5, "USRDIR/eboot.bin": 4097})
 	// directories whose records end exactly on a sector border, in the primary or the Joliet hierarchy
 	// ("." and ".." take 34+34 bytes; a record is 33+len+pad bytes, Joliet names take 2 bytes per character)
